@@ -31,4 +31,41 @@ theorem resolveCmd_straight_inv {n : Str} {c : Cmd} (h : resolveCmd {} n = some 
       refine ⟨?_, ?_, ?_, ?_, ?_⟩ <;> intro hc' <;> first | exact hA | cases hc'
   cases h
 
+/-! ### flow-control spellings: finite checks over the regenerated tables -/
+
+theorem resolveCmd_ifKw : ∀ k, isIfKw k = true → resolveCmd {} k = some .ifC :=
+  forall_contains (by decide)
+
+theorem resolveCmd_elifKw : ∀ k, isElifKw k = true → resolveCmd {} k = some .elseIf :=
+  forall_contains (by decide)
+
+theorem resolveCmd_elseKw : ∀ k, isElseKw k = true → resolveCmd {} k = some .elseC :=
+  forall_contains (by decide)
+
+theorem resolveCmd_endIfKw : ∀ k, namesEndIfCommand.contains k = true → resolveCmd {} k = some .endIf :=
+  forall_contains (by decide)
+
+theorem resolveCmd_whileKw : ∀ k, isWhileKw k = true → resolveCmd {} k = some .whileC :=
+  forall_contains (by decide)
+
+theorem resolveCmd_endWhileKw : ∀ k, namesEndWhileCommand.contains k = true → resolveCmd {} k = some .endWhile :=
+  forall_contains (by decide)
+
+theorem resolveCmd_forKw : ∀ k, isForKw k = true → resolveCmd {} k = some .forIn :=
+  forall_contains (by decide)
+
+theorem resolveCmd_endForKw : ∀ k, namesEndForInCommand.contains k = true → resolveCmd {} k = some .endFor :=
+  forall_contains (by decide)
+
+theorem resolveCmd_fnKw : ∀ k, isFnKw k = true → resolveCmd {} k = some .function :=
+  forall_contains (by decide)
+
+theorem resolveCmd_endFnKw : ∀ k, namesEndFunctionCommand.contains k = true → resolveCmd {} k = some .endFunction :=
+  forall_contains (by decide)
+
+theorem resolveCmd_returnKw : ∀ k, namesReturnCommand.contains k = true → resolveCmd {} k = some .returnC :=
+  forall_contains (by decide)
+
+theorem resolveCmd_endWord : resolveCmd {} endWord = some .endC := by decide
+
 end Duck
